@@ -17,6 +17,7 @@ from vlib.api import all_of, harness, truth
 from . import e2e, refs, secctx
 from .c02 import HASHES
 from .c10 import _blob_at, _chain
+from .world import ScalarOutOfRange  # noqa
 from .world import seq_eq
 
 META = dict(assumptions=[
@@ -441,7 +442,7 @@ def _params(tier):
     return out
 
 
-@harness(P, params=_params, max_steps=6000000, raises=(ValueError,),
+@harness(P, per_job=True, params=_params, max_steps=6000000, raises=(ScalarOutOfRange,),
          bounds="one online unprotect (blob at a solver-chosen position (L1,L2) of a 3x3 corner of the lattice incl. L2=31 and L1=0, seed-key reply) or protect (DC 'now' at a listed "
          "position; seed-key reply or DH / ECDH_P256 / ECDH_P384 public-key reply; root key id given or not) against the reference DC, run through the sync API and the async API in the same "
          "path; 4 hashes; 5 SID shapes (SD lengths with different residues mod 8); domain name length chosen by the DC so that the sealed reply needs 0 / 4 / 8 / 12 bytes of auth padding; endpoint-mapper port symbolic 16-bit (not 135); 2 authentication legs; an ephemeral EC scalar outside [1, n-1] makes the EC library raise ValueError (allowed)",
